@@ -618,11 +618,15 @@ class Piece:
         self.origin = origin
 
 
+OPAQUE_MACROS = ('debug', 'info', 'warn', 'error', 'trace', 'format', 'print', 'println', 'eprint', 'eprintln', 'panic', 'verif_panic', 'write', 'writeln',
+                 'unreachable', 'todo', 'unimplemented', 'log', 'format_args')
+
+
 def _macro_skip(st, i):
     """if st[i] is the `!` of a macro invocation return index after its argument group else None"""
     if st[i][1] == '!' and i > 0 and st[i - 1][0] == 'ident' and i + 1 < len(st) and st[i + 1][1] in ('(', '[', '{'):
-        if st[i - 1][1] in ('vec',):
-            return None
+        if st[i - 1][1] not in OPAQUE_MACROS:
+            return None      # `vec![..]`, `matches!(..)`, `assert!(..)`: the arguments are ordinary expressions (effectful calls get the token)
         return rtok.match_close(st, i + 1) + 1
     return None
 
@@ -1293,6 +1297,21 @@ def build_fn(fs, repo, effectful, table_keys, canary=False):
             kw_i, lo_i, lc_i = loops[insr.loop - 1]
             off = st[lc_i][2] if insr.where == 'loop_end' else st[lo_i][3]
             txt = '\n' + txt
+        elif getattr(insr, 'each', False):
+            # `[each]`: the same text at every statement that begins with the anchor (a proof step that belongs to a kind of statement,
+            # e.g. every removal of the destination, however many there are)
+            want = [t[1] for t in rtok.sig(rtok.lex(insr.anchor))]
+            hits = [i for i in range(body_open + 1, body_close - len(want) + 1)
+                    if [x[1] for x in st[i:i + len(want)]] == want and st[i - 1][1] in (';', '{', '}')]
+            if not hits:
+                raise AnchorLost('anchor `%s` found 0 times' % insr.anchor)
+            for a in hits:
+                sa, sb = stmt_bounds(st, a, a + len(want) - 1, body_open + 1, body_close)
+                if insr.where == 'before':
+                    add(st[sa][2], txt + ' ', ('ob', insr.oid))
+                else:
+                    add(st[sb][3], '\n' + txt, ('ob', insr.oid))
+            off = None
         else:
             a, b = find_anchor(st, insr.anchor, body_open + 1, body_close)
             sa, sb = stmt_bounds(st, a, b, body_open + 1, body_close)
@@ -1302,7 +1321,8 @@ def build_fn(fs, repo, effectful, table_keys, canary=False):
             else:
                 off = st[sb][3]
                 txt = '\n' + txt
-        add(off, txt, ('ob', insr.oid))
+        if off is not None:
+            add(off, txt, ('ob', insr.oid))
         nasserts = len(re.findall(r'\bassert\b', txt))
         ob.append({'oid': insr.oid, 'kind': 'proof-hint' if insr.hint else 'proof-block', 'tags': insr.tags or fs.safety,
                    'text': '%d assert(s) %s `%s`' % (nasserts, insr.where, insr.anchor), 'origin': insr.origin})
